@@ -728,3 +728,20 @@ def spec_predicate(ctx):
            '' if has_t else 'a class with a glomit method used as a literal (argument, dict key) would be called unbound')
     ctx.ob(len(terms) == 2, u, 'nothing else decides it (%d terms)' % len(terms))
     ctx.floor(3)
+
+
+@rule('C03.25')
+def specfunc_marks_its_argument(ctx):
+    """Invoke accepts a callable, T or an exact Spec as its function; ``Invoke.specfunc(s)`` is the
+    way to say "the function is the value of spec s" for *any* s, so it wraps s in Spec
+    unconditionally.  Handing a spec-like object (Coalesce, Val, Pipe, a Path ..) on unwrapped
+    makes the constructor refuse it"""
+    u = ctx.unit('core.Invoke.specfunc')
+    prm = u.params[1]
+    rets = [r for r in u.own_nodes() if isinstance(r, ast.Return)]
+    ctx.require(rets, 'Invoke.specfunc: no return')
+    for r in rets:
+        ok = r.value is not None and (matches(r.value, '%s(Spec(%s))' % (u.params[0], prm)) or matches(r.value, 'Invoke(Spec(%s))' % prm))
+        ctx.ob(ok, u, 'specfunc wraps its argument in Spec whatever it is: %s' % norm(r),
+               '' if ok else 'a spec-like argument is handed to the constructor as it is, which accepts callables, T and exact Spec objects only', node=r)
+    ctx.floor(1)
